@@ -127,6 +127,10 @@ class Vocab:
         self.flaws.append(("slash-leading", lambda i: "/" + self.form(self.plain[i % len(self.plain)], i), "TAG_INVALID", False))
         self.flaws.append(("slash-trailing", lambda i: self.form(self.plain[i % len(self.plain)], i) + "/", "TAG_INVALID", False))
         self.flaws.append(("bad-char", lambda i: self.form(self.plain[i % len(self.plain)], i) + "[", "CHARACTER_INVALID", False))
+        # a forbidden punctuation character inside an EXTENSION (the allow-list of extensions is a list of characters, not a range)
+        if self.ext_ok:
+            self.flaws.append(("bad-char-ext", lambda i: self.form(self.ext_ok[i % len(self.ext_ok)], i) + "/My-" +
+                               "@;<=>?!$%&*|"[(i // 2) % 12] + "thing_2", "CHARACTER_INVALID", False))
         # a forbidden character inside an otherwise legal text / name VALUE (checked by a different routine than tag names)
         self.text_tags = [t for t, v, k in self.value if k in ("textClass", "nameClass")]
         if self.text_tags:
